@@ -117,13 +117,17 @@ Qed.
 Section Proofs.
   Variable chain : Z.
   Variable recover : emsg -> option nat.
+  Variable kinds : nat -> akind.
+  Variable load : loader.
+  (** the keeper's loader hands every account's stored sequence to the StateDB, whatever its type *)
+  Hypothesis Hload : loader_faithful load.
 
   Notation sender_of := (sender_of chain recover).
   Notation sig_pass := (sig_pass chain recover).
   Notation ante := (ante chain recover).
-  Notation run_msgs := (run_msgs chain recover).
-  Notation exec_msg := (exec_msg chain recover).
-  Notation deliver := (deliver chain recover).
+  Notation run_msgs := (run_msgs chain recover kinds load).
+  Notation exec_msg := (exec_msg chain recover kinds load).
+  Notation deliver := (deliver chain recover kinds load).
   Notation tx_claims := (tx_claims chain recover).
 
   Lemma run_dec_irrelevant d ms c : relevant d = false -> run_dec chain recover d ms c = Some c.
@@ -263,6 +267,30 @@ Section Proofs.
 
   (* ---------------------------------------------------------------- msg server *)
 
+  (** Commit of the objects a message merely touched: each is written back with the sequence it had *)
+  Lemma commit_touched_id s ts x : commit_touched kinds load s ts x = s x.
+  Proof.
+    induction ts as [|t r IH]; simpl; [reflexivity|].
+    unfold upd at 1. destruct (Nat.eqb x t) eqn:E; [|exact IH].
+    apply Nat.eqb_eq in E. subst. apply Hload.
+  Qed.
+
+  (** one executed message: the signer's sequence becomes nonce+1, every other account keeps its own —
+      whatever the execution touched *)
+  Lemma exec_msg_seq s m s2 u c :
+    exec_msg s m = Some (s2, u, c) ->
+    exists b, sender_of m = Some b /\ forall x, s2 x = upd s b (N.succ (m_nonce m)) x.
+  Proof.
+    unfold Model.exec_msg. destruct (sender_of m) as [b|] eqn:Eb; [|destruct (m_exec m); discriminate].
+    intro H. exists b. split; [reflexivity|]. intro x.
+    assert (Hs : exists d, s2 = upd (commit_touched kinds load s d) b (N.succ (m_nonce m))).
+    { destruct (m_exec m); try discriminate; inversion H;
+        [exists (m_touch m)|exists (@nil nat)]; reflexivity. }
+    destruct Hs as [d ->].
+    destruct (Nat.eq_dec x b) as [->|Hn]; [rewrite !upd_same; reflexivity|].
+    rewrite !upd_other by assumption. apply commit_touched_id.
+  Qed.
+
   Lemma claims_senders ms : forall fs, fs = map sender_of ms -> Forall (fun m => exists a, sender_of m = Some a) ms ->
     forall a, In a (map fst (claims_of fs ms)) <-> exists m, In m ms /\ sender_of m = Some a.
   Proof.
@@ -285,14 +313,15 @@ Section Proofs.
     induction ms as [|m r IH]; intros s0 s t t2 us cs Hi Hr a.
     - simpl in *. inversion Hr; subst. split; [tauto|reflexivity].
     - cbn [map] in Hi. cbn [Model.inc_pass] in Hi. cbn [Model.run_msgs] in Hr.
-      unfold Model.exec_msg in Hr.
       destruct (sender_of m) as [b|] eqn:Eb; [|discriminate].
       destruct (N.eqb (m_nonce m) (s0 b)) eqn:En; [|discriminate]. apply N.eqb_eq in En.
-      assert (Hr' : exists t1, t1 = upd (upd t b (m_nonce m)) b (N.succ (m_nonce m)) /\
+      assert (Hr' : exists t1, (forall x, t1 x = upd t b (N.succ (m_nonce m)) x) /\
                     exists us' cs', run_msgs t1 r = Some (t2, us', cs')).
-      { destruct (m_exec m); try discriminate;
-        (destruct (Model.run_msgs chain recover _ r) as [[[x y] z]|] eqn:Er; [|discriminate]);
-        inversion Hr; subst; eexists; split; try reflexivity; eauto. }
+      { destruct (Model.exec_msg chain recover kinds load t m) as [[[t1 u1] c1]|] eqn:Ee; [|discriminate].
+        destruct (exec_msg_seq _ _ _ _ _ Ee) as [b' [Hb' Hx]].
+        assert (b' = b) by congruence. subst b'.
+        destruct (Model.run_msgs chain recover kinds load t1 r) as [[[x y] z]|] eqn:Er; [|discriminate].
+        inversion Hr; subst. exists t1. split; [exact Hx|eauto]. }
       destruct Hr' as [t1 [Ht1 [us' [cs' Hr']]]].
       destruct (IH _ _ _ _ _ _ Hi Hr' a) as [IH1 IH2].
       cbn [map claims_of]. rewrite Eb. cbn [map fst In].
@@ -301,7 +330,7 @@ Section Proofs.
       + rewrite (IH2 Hnin). split.
         * intros [Hab|Hin]; [|tauto]. subst a.
           rewrite (inc_pass_untouched _ _ _ _ b Hi Hnin). rewrite Ht1, !upd_same. rewrite En. reflexivity.
-        * intro H. rewrite Ht1. rewrite !upd_other by (intro; subst; apply H; left; reflexivity). reflexivity.
+        * intro H. rewrite Ht1. rewrite upd_other by (intro; subst; apply H; left; reflexivity). reflexivity.
   Qed.
 
   Lemma run_msgs_published ms : forall t t2 us cs,
@@ -314,7 +343,7 @@ Section Proofs.
     - cbn [Model.run_msgs] in H. unfold Model.exec_msg in H.
       destruct (sender_of m) as [b|] eqn:Eb; [|destruct (m_exec m); discriminate].
       destruct (m_exec m) eqn:Ee; try discriminate;
-      (destruct (Model.run_msgs chain recover _ r) as [[[x y] z]|] eqn:Er; [|discriminate]);
+      (destruct (Model.run_msgs chain recover kinds load _ r) as [[[x y] z]|] eqn:Er; [|discriminate]);
       inversion H; subst; destruct (IH _ _ _ _ Er) as [-> IHc]; (split; [reflexivity|]).
       + destruct (m_create m) eqn:Ec.
         * intros u k [Heq|Hin].
@@ -404,11 +433,11 @@ Section Proofs.
   Fixpoint final (s0 : state) (tr : list gstep) : state :=
     match tr with [] => s0 | g :: r => final (snd g) r end.
 
-  Lemma trace_run ds ts : forall s, map (fun g => snd (fst g)) (trace ds s ts) = snd (run chain recover ds s ts).
+  Lemma trace_run ds ts : forall s, map (fun g => snd (fst g)) (trace ds s ts) = snd (run chain recover kinds load ds s ts).
   Proof.
     induction ts as [|t r IH]; intro s; simpl; [reflexivity|].
     destruct (deliver ds s t) as [s1 x] eqn:E. simpl.
-    destruct (run chain recover ds s1 r) as [s2 xs] eqn:Er. simpl. f_equal.
+    destruct (run chain recover kinds load ds s1 r) as [s2 xs] eqn:Er. simpl. f_equal.
     rewrite IH, Er. reflexivity.
   Qed.
 
@@ -586,6 +615,17 @@ Section Proofs.
   Proof.
     intros Hwf Hacc a. destruct (deliver ds s t) as [s' r] eqn:E.
     destruct (deliver_step _ _ _ _ _ Hwf E) as [H _]. destruct (H Hacc) as [_ Hadv]. apply Hadv.
+  Qed.
+
+  (** an account's sequence is moved by its own signed transactions only: whatever a tx of other signers
+      does to it while executing (pays it, calls it, names it selfdestruct beneficiary), whatever its auth
+      account type, its sequence after the tx is the one before *)
+  Lemma only_own_txs_move_sequence ds s t a :
+    chain_wf ds = true -> proj a (tx_claims t) = [] -> fst (deliver ds s t) a = s a.
+  Proof.
+    intros Hwf Hp. destruct (r_accepted (snd (deliver ds s t))) eqn:E.
+    - rewrite (sequence_plus_one_per_accepted ds s t Hwf E a), Hp. simpl. lia.
+    - rewrite (rejected_changes_nothing ds s t E). reflexivity.
   Qed.
 
   (** a contract is created at the address derived from the signer and the TRANSACTION's nonce,
